@@ -1,9 +1,40 @@
 package main
 
 import (
+	_ "sync"
+	_ "sync/atomic"
+
 	"verifprog/lib"
 	"verifprog/mid"
 )
+
+func three(k int) [3]int { return [3]int{k, k + 1, k + 2} }
+
+type holder struct {
+	arr [4]int
+	tag string
+}
+
+func mkHolder(k int) holder { return holder{arr: [4]int{k, 2 * k, 3 * k, 4 * k}, tag: "h"} }
+
+// indexing array VALUES that have no address: received, looked up, returned, literal
+func valueIndexing(i int) {
+	ch := make(chan [3]int, 2)
+	ch <- [3]int{1, 2, 3}
+	ch <- [3]int{4, 5, 6}
+	x := (<-ch)[i]
+	v, ok := <-ch
+	println("recvidx", x, v[i], ok)
+	m := map[string][3]int{"a": {7, 8, 9}}
+	println("mapidx", m["a"][i], m["zz"][i], three(10)[i], mkHolder(5).arr[i+1], [3]int{20, 21, 22}[i])
+	hc := make(chan holder, 1)
+	hc <- mkHolder(3)
+	println("recvfield", (<-hc).arr[i])
+	p := &[3]int{10, 11, 12}
+	q := *p
+	p[1] = 99
+	println("copyidx", q[i], p[i])
+}
 
 type Wrapper struct {
 	lib.Base
@@ -21,6 +52,7 @@ func (m mine) tag() int { return m.n } // main.tag, not lib.tag
 func (m mine) Pub() int { return m.n }
 
 func main() {
+	valueIndexing(1)
 	w := Wrapper{lib.Base{N: 30}, 1}
 	println("tagof", lib.TagOf(w), lib.TagOf(&w), lib.TagOf(mine{5}), lib.TagOf(lib.Base{N: 10}), lib.TagOf(&lib.Base{N: 11}), lib.TagOf(7))
 	println("mid", lib.TagOf(mid.Wrap{Base: lib.Base{N: 40}}), lib.TagOf(&mid.PWrap{Base: &lib.Base{N: 50}}), lib.TagOf(mid.Local(60)), mid.LocalTagOf(mid.Local(60)), mid.LocalTagOf(mine{61}), mid.LocalTagOf(w))
